@@ -52,13 +52,14 @@ func trailerStatus(body []byte) int {
 	return -1
 }
 
-// shapes: 0 both sides idle (target never answers), 1 target unreachable (stream creation blocks), 2 mid-stream (one response, then silence)
+// shapes: 0 both sides idle (target never answers), 1 target unreachable (stream creation blocks), 2 mid-stream (one response, then silence),
+// 3 mid-stream with a stalled client: the target has answered, the client does not read, the response writer blocks (HTTP entries only)
 func mkConn(shape int) *vfake.Conn {
 	c := vfake.NewConn()
 	switch shape {
 	case 1:
 		c.StreamWait = true
-	case 2:
+	case 2, 3:
 		c.Script = []vfake.RespItem{{Kind: vfake.KMsg, Payload: vfake.Flow("first")}}
 	}
 	return c
@@ -71,14 +72,73 @@ type outcome struct {
 	start   time.Time
 }
 
+// stalledWriter is the ResponseWriter of a connection whose peer has stopped reading: Write blocks until released.
+// A gRPC-Web handler ends a call by writing the trailer frame (flag 0x80); against a client that does not read, that last
+// write blocks like any net/http write, outside the bridge's control: for that entry the call counts as ended when the
+// trailer write is attempted.
+type stalledWriter struct {
+	h       http.Header
+	once    sync.Once
+	trailer chan struct{}
+	release chan struct{}
+}
+
+func newStalledWriter() *stalledWriter {
+	return &stalledWriter{h: http.Header{}, trailer: make(chan struct{}), release: make(chan struct{})}
+}
+func (w *stalledWriter) Header() http.Header { return w.h }
+func (w *stalledWriter) WriteHeader(int)     {}
+func (w *stalledWriter) Flush()              {}
+func (w *stalledWriter) Write(p []byte) (int, error) {
+	if len(p) > 0 && p[0]&0x80 != 0 {
+		w.once.Do(func() { close(w.trailer) })
+	}
+	<-w.release
+	return 0, http.ErrHandlerTimeout
+}
+
+// stalledOne: shape 3. The handler is called directly with a writer that blocks; what is measured is when ServeHTTP returns
+// (or, with trailerEnds, attempts to write the trailer frame). The status cannot be observed by a client that does not
+// read: code 4 stands for "ended", -1 for "still running 2 s after the deadline".
+func stalledOne(h http.Handler, req *http.Request, conn *vfake.Conn, d time.Duration, trailerEnds bool) outcome {
+	o := outcome{conn: conn, code: -1}
+	w := newStalledWriter()
+	done := make(chan struct{})
+	o.start = time.Now()
+	go func() {
+		defer close(done)
+		h.ServeHTTP(w, req)
+	}()
+	trailer := w.trailer
+	if !trailerEnds {
+		trailer = nil
+	}
+	select {
+	case <-done:
+		o.code = 4
+	case <-trailer:
+		o.code = 4
+	case <-time.After(d + 2*time.Second):
+	}
+	o.elapsed = time.Since(o.start)
+	close(w.release)
+	<-done
+	return o
+}
+
 func enforceOne(entry, shape int, d time.Duration) outcome {
 	conn := mkConn(shape)
 	hdr := fmt.Sprintf("%dm", d.Milliseconds())
 	o := outcome{conn: conn, code: -1}
 	switch entry {
 	case 0: // transcoded HTTP, server-streaming for mid-stream, unary otherwise
-		router := vfake.NewFlowRouter(conn, false, shape == 2)
+		router := vfake.NewFlowRouter(conn, false, shape >= 2)
 		b := webbridge.NewTranscodedHTTPBridge(router, webbridge.TranscodedHTTPBridgeOpts{})
+		if shape == 3 {
+			req := httptest.NewRequest("POST", "/x", strings.NewReader(`{"message":"hi"}`))
+			req.Header.Set("Grpc-Timeout", hdr)
+			return stalledOne(b, req, conn, d, false)
+		}
 		srv := httptest.NewServer(b)
 		defer srv.Close()
 		req, _ := http.NewRequest("POST", srv.URL+"/x", strings.NewReader(`{"message":"hi"}`))
@@ -125,8 +185,14 @@ func enforceOne(entry, shape int, d time.Duration) outcome {
 		}
 		o.elapsed = time.Since(o.start)
 	case 2: // gRPC-Web
-		router := vfake.NewFlowRouter(conn, false, shape == 2)
+		router := vfake.NewFlowRouter(conn, false, shape >= 2)
 		b := webbridge.NewGRPCWebBridge(router, webbridge.GRPCWebBridgeOpts{})
+		if shape == 3 {
+			req := httptest.NewRequest("POST", "/x", bytes.NewReader(lpm(0, vfake.Flow("hi"))))
+			req.Header.Set("Content-Type", "application/grpc-web+proto")
+			req.Header.Set("Grpc-Timeout", hdr)
+			return stalledOne(b, req, conn, d, true)
+		}
 		srv := httptest.NewServer(b)
 		defer srv.Close()
 		req, _ := http.NewRequest("POST", srv.URL+"/x", bytes.NewReader(lpm(0, vfake.Flow("hi"))))
@@ -200,7 +266,10 @@ func enforcePart(w *vc.Writer, r *vc.Rand) {
 	reps := vc.Scale(1, 8)
 	for rep := 0; rep < reps; rep++ {
 		for entry := 0; entry < 5; entry++ {
-			for shape := 0; shape < 3; shape++ {
+			for shape := 0; shape < 4; shape++ {
+				if shape == 3 && entry != 0 && entry != 2 {
+					continue // the stalled client is an http.ResponseWriter that blocks: the two plain-HTTP entries
+				}
 				jobs = append(jobs, job{entry, shape, 60 + r.Intn(120)})
 			}
 		}
